@@ -42,6 +42,30 @@ def _getformat(val):
         return "%.16g"
 
 
+def _format_float(val):
+    """
+    Format a floating point number for insertion into a generated file.
+
+    Finite values use the format from _getformat. NaN and infinity are written with the
+    tokens that FileParser converts back to nan and inf.
+
+    Parameters
+    ----------
+    val : float
+        The number which needs formatted.
+
+    Returns
+    -------
+    str
+        The formatted number.
+    """
+    if val != val:
+        return "NaN"
+    if val in (float('inf'), float('-inf')):
+        return "Inf" if val > 0 else "-Inf"
+    return _getformat(val) % val
+
+
 class _SubHelper(object):
     """
     Replaces file text at the correct word location in a line.
@@ -128,7 +152,7 @@ class _SubHelper(object):
 
         if self._current_location == self._replace_location:
             if isinstance(self._newtext, float):
-                return _getformat(self._newtext) % self._newtext
+                return _format_float(self._newtext)
             else:
                 return str(self._newtext)
         else:
@@ -158,7 +182,7 @@ class _SubHelper(object):
            self._counter < end:
             if isinstance(self._newtext[self._counter], float):
                 val = self._newtext[self._counter]
-                newval = _getformat(val) % val
+                newval = _format_float(val)
             else:
                 newval = str(self._newtext[self._counter])
             self._counter += 1
@@ -268,7 +292,7 @@ class _ToInf(TokenConverter):
         float
             the float value for infinity.
         """
-        return float('inf')
+        return float(tokenlist[0])
 
 
 class InputFileGenerator(object):
